@@ -1,5 +1,5 @@
 CONSTANTS
-  Projects = {"A", "B", "X"}
+  Projects = {"A", "B", "C", "X"}
   Failing = {"X"}
   MaxCalls = 5
   ResetOnNew = TRUE
